@@ -39,7 +39,11 @@ def modelled : List String := [
   "babyjub.pruneBuffer",
   "utils.BigIntLEBytes",
   "utils.SetBigIntFromLEBytes",
-  "utils.SwapEndianness"
+  "utils.SwapEndianness",
+  "babyjub.<decls>@babyjub.go",
+  "babyjub.<decls>@eddsa.go",
+  "babyjub.<decls>@helpers.go",
+  "utils.<decls>@utils.go"
 ]
 
 theorem source_pinned : modelled.all (same I3.Gen.fingerprints) = true := by decide +kernel
@@ -47,6 +51,6 @@ theorem source_pinned : modelled.all (same I3.Gen.fingerprints) = true := by dec
 theorem function_set_pinned : (["babyjub.", "utils."] : List String).all (sameKeys I3.Gen.fingerprints) = true := by
   decide +kernel
 
-theorem modelled_nonempty : 31 = modelled.length := by decide
+theorem modelled_nonempty : 35 = modelled.length := by decide
 
 end I3.Props.C02
